@@ -111,9 +111,14 @@ func runC01(r *core.Run) {
 			c01Check(r, worker, p, in)
 		}
 	})
+	lifetimesC01(r)
 }
 
 func replayC01(r *core.Run, c core.Case) {
+	if c.Kind == "lifetimes" {
+		replayLifetimes(r, c)
+		return
+	}
 	p, ok := adapt.ByName(c.Args["parser"])
 	if !ok {
 		return
